@@ -331,8 +331,12 @@ class Buildable(Generic[T], metaclass=abc.ABCMeta):
     value = self.__arguments__.get(name, _UNSET_SENTINEL)
     # Check that positional-only arguments cannot be accessed by keywords.
     param = self.__signature_info__.parameters.get(name)
-    if param is not None and (
-        param.kind in (param.POSITIONAL_ONLY, param.VAR_POSITIONAL)
+    # A name stored in `__arguments__` that equals a positional-only or *args
+    # parameter is a **kwargs entry (e.g. `f(1, a=2)` for `def f(a, /, **kw)`).
+    if (
+        value is _UNSET_SENTINEL
+        and param is not None
+        and param.kind in (param.POSITIONAL_ONLY, param.VAR_POSITIONAL)
     ):
       raise AttributeError(
           'Cannot access positional-only or variadic positional arguments '
